@@ -120,6 +120,13 @@ func TestC10(t *testing.T) {
 			return json.RawMessage(`{"items":[1,2,}`), nil // a pre-encoded result that is not valid JSON
 		}, "rawok": func(ctx context.Context, req *jrpc2.Request) (any, error) {
 			return json.RawMessage(" [ 1 ,\n 2 ] "), nil
+		}, "errbad": func(ctx context.Context, req *jrpc2.Request) (any, error) {
+			// error values whose data is not JSON, returned as they are and wrapped
+			e := &jrpc2.Error{Code: 9, Message: "upstream", Data: json.RawMessage(`{"cut":`)}
+			if rand.Intn(2) == 0 {
+				return nil, fmt.Errorf("relay: %w", e)
+			}
+			return nil, e
 		}}
 		srv := jrpc2.NewServer(mux, &jrpc2.ServerOptions{AllowPush: true, Concurrency: 4}).Start(sch)
 		var wg sync.WaitGroup
@@ -139,6 +146,7 @@ func TestC10(t *testing.T) {
 					case 2:
 						cli.Send([]byte(fmt.Sprintf(`[{"jsonrpc":"2.0","id":%d,"method":"m"},{"jsonrpc":"2.0","method":"m"}]`, g*100000+k)))
 						cli.Send([]byte(fmt.Sprintf(`[{"jsonrpc":"2.0","id":%d,"method":"raw"},{"jsonrpc":"2.0","id":"x%d","method":"rawok"}]`, g*100000+k, k)))
+						cli.Send([]byte(fmt.Sprintf(`[{"jsonrpc":"2.0","id":"e%d","method":"errbad"},{"jsonrpc":"2.0","id":"y%d","method":"m"},{"jsonrpc":"2.0","id":"z%d","method":"errbad"}]`, k, k, k)))
 					}
 				}
 			}(g)
@@ -224,7 +232,7 @@ func TestC10(t *testing.T) {
 	// (4) channels handed to servers by server.Loop: connections that are served to the end, that are
 	// refused because the Assigner failed, whose transport breaks (error exit status), with context
 	// cancellation and accepter failures in between - each is closed exactly once
-	loopKinds := []string{"connect", "connect", "connectbroken", "connectfail", "clientclose", "cancel", "call", "acceptclosing", "acceptfail"}
+	loopKinds := []string{"connect", "connect", "connectbroken", "connectsendfail", "connectfail", "clientclose", "cancel", "call", "acceptclosing", "acceptfail"}
 	for i := 0; i < pick(60, 600); i++ {
 		sc := &loopScenario{}
 		conns := 0
